@@ -10,6 +10,7 @@ import (
 	abci "github.com/cometbft/cometbft/abci/types"
 	sdk "github.com/cosmos/cosmos-sdk/types"
 	"github.com/cosmos/cosmos-sdk/x/authz"
+	"github.com/cosmos/cosmos-sdk/x/group"
 
 	"verifharness/fw"
 	"verifharness/lab"
@@ -278,6 +279,14 @@ func Flatten(msgs []sdk.Msg) (leaves []sdk.Msg, nested []bool) {
 					continue
 				}
 			}
+			// a group proposal submitted with Exec_TRY executes its messages in the submitting tx
+			if gp, ok := m.(*group.MsgSubmitProposal); ok && gp.Exec == group.Exec_EXEC_TRY {
+				inner, err := gp.GetMsgs()
+				if err == nil {
+					walk(inner, true)
+					continue
+				}
+			}
 			leaves = append(leaves, m)
 			nested = append(nested, n)
 		}
@@ -315,6 +324,11 @@ func descMsgs(msgs []sdk.Msg) string {
 		if ex, ok := m.(*authz.MsgExec); ok {
 			inner, _ := ex.GetMessages()
 			parts = append(parts, "Exec["+descMsgs(inner)+"]")
+			continue
+		}
+		if gp, ok := m.(*group.MsgSubmitProposal); ok {
+			inner, _ := gp.GetMsgs()
+			parts = append(parts, "GroupProposal["+descMsgs(inner)+"]")
 			continue
 		}
 		parts = append(parts, shortMsg(m))
